@@ -451,6 +451,13 @@ class PathSum:
             t, f, ab = self.branch(e, st)
             return [("val", s, ("lit", "bool", True)) for s in t] + [("val", s, ("lit", "bool", False)) for s in f] + ab
         cur, ab = self.ev_list([e["l"], e["r"]], st)
+        if op in ("Add", "Sub", "Mul", "Div", "Rem", "Shl", "Shr") and "callee" not in e:
+            out = []
+            for (s, v) in cur:
+                s = s.fork()
+                s.add_effect(("arith", op, v[0], v[1], loc(e), tuple(e.get("sp") or ())))
+                out.append(("val", s, ("bin", op, v[0], v[1])))
+            return out + ab
         return [("val", s, ("bin", op, v[0], v[1])) for (s, v) in cur] + ab
 
     def ev_Field(self, e, st):
@@ -461,7 +468,7 @@ class PathSum:
         out = []
         for (s, v) in cur:
             s = s.fork()
-            s.add_effect(("index", v[0], v[1], loc(e)))
+            s.add_effect(("index", v[0], v[1], loc(e), tuple(e.get("sp") or ())))
             out.append(("val", s, ("index", v[0], v[1])))
         return out + ab
 
@@ -487,9 +494,9 @@ class PathSum:
         return self._assign(e["l"], e["r"], st, None)
 
     def ev_AssignOp(self, e, st):
-        return self._assign(e["l"], e["r"], st, e["op"].replace("Assign", ""))
+        return self._assign(e["l"], e["r"], st, e["op"].replace("Assign", ""), e.get("sp"))
 
-    def _assign(self, l, r, st, op):
+    def _assign(self, l, r, st, op, node_sp=None):
         out = []
         lhs = l
         while lhs["k"] == "Unary" and lhs["op"] == "Deref":
@@ -505,6 +512,7 @@ class PathSum:
                 lid = lhs["res"]["id"]
                 if op:
                     old = s.env.get(lid, ("local", lid, lhs["res"]["name"]))
+                    s.add_effect(("arith", op, old, v, loc(l), tuple((node_sp or l.get("sp")) or ())))
                     v = ("bin", op, old, v)
                 s.env[lid] = v
                 out.append(("val", s, UNIT))
